@@ -122,3 +122,107 @@ def build_env(fn, keys, never_written):
         elif isptr and r[0] == 'ptr':
             env[x['id']] = r
     return env
+
+
+class PtrFlow(object):
+    """Flow-sensitive normal forms of pointer locals: a forward dataflow over the CFG that follows
+    declarations, assignments, ++/--, += / -= of pointer-typed locals.  `seeds` gives the normal form
+    a declaration is to be taken as (e.g. the result of a search: ('ptr', base, {'U': 1}))."""
+
+    def __init__(self, cfg, keys, never_written, seeds=None, seed_calls=None):
+        from .frontend import walk, qtype
+        self.cfg, self.keys = cfg, keys
+        self.seeds = seeds or {}
+        self.seed_calls = seed_calls or []      # [(call ast, normal form of its result)]
+        self.base = build_env(cfg.fn, keys, never_written)
+        for i, v in self.seeds.items():
+            if i in never_written:
+                self.base[i] = v
+        self._walk, self._qtype = walk, qtype
+
+        def meet(ins):
+            r = dict(ins[0])
+            for s in ins[1:]:
+                for k in list(r):
+                    if s.get(k) != r[k]:
+                        del r[k]
+            return r
+        self.at, self.after = cfg.forward({}, self._transfer, meet)
+
+    def _env(self, st):
+        e = dict(self.base)
+        e.update(st)
+        return e
+
+    def _isptr(self, x):
+        t = (self._qtype(x) or '').rstrip()
+        return t.endswith('*') or t.endswith('* const') or t.endswith('*const')
+
+    def _transfer(self, n, st):
+        if n.ast is None or n.kind not in ('stmt', 'cond', 'switch'):
+            return st
+        st = dict(st)
+        # evaluation order approximated by post-order (operands before operators)
+        for x in self._post(n.ast):
+            k = x.get('kind')
+            if k == 'VarDecl' and 'init' in x and self._isptr(x):
+                if x['id'] in self.seeds:
+                    st[x['id']] = self.seeds[x['id']]
+                else:
+                    r = self._norm_rhs(kids(x)[-1], st)
+                    if r is not None and r[0] == 'ptr':
+                        st[x['id']] = r
+                    else:
+                        st.pop(x['id'], None)
+            elif k == 'UnaryOperator' and x.get('opcode') in ('++', '--'):
+                t = peel(kids(x)[0])
+                i = (t.get('referencedDecl') or {}).get('id') if t.get('kind') == 'DeclRefExpr' else None
+                if i is not None and self._isptr(t):
+                    cur = self._env(st).get(i)
+                    if cur is not None and cur[0] == 'ptr':
+                        st[i] = ('ptr', cur[1], ladd(cur[2], lconst(1), 1 if x['opcode'] == '++' else -1))
+                    else:
+                        st.pop(i, None)
+                        self.base.pop(i, None)
+            elif k in ('BinaryOperator', 'CompoundAssignOperator') and x.get('opcode') in ('=', '+=', '-='):
+                t = peel(kids(x)[0])
+                i = (t.get('referencedDecl') or {}).get('id') if t.get('kind') == 'DeclRefExpr' else None
+                if i is not None and self._isptr(t):
+                    env = self._env(st)
+                    r = self._norm_rhs(kids(x)[1], st)
+                    cur = env.get(i)
+                    if x['opcode'] == '=' and r is not None and r[0] == 'ptr':
+                        st[i] = r
+                    elif x['opcode'] != '=' and r is not None and r[0] == 'int' and cur is not None and cur[0] == 'ptr':
+                        st[i] = ('ptr', cur[1], ladd(cur[2], r[2], 1 if x['opcode'] == '+=' else -1))
+                    else:
+                        st.pop(i, None)
+                        self.base.pop(i, None)
+        return st
+
+    def _norm_rhs(self, e, st):
+        p = peel(e)
+        for (c, nf) in self.seed_calls:
+            if p is c:
+                return nf
+        return PtrNorm(self.keys, self._env(st)).norm(e)
+
+    def _post(self, e):
+        for c in kids(e):
+            if c.get('kind') == 'LambdaExpr':
+                continue
+            for y in self._post(c):
+                yield y
+        yield e
+
+    def norm_at(self, node, e):
+        """Normal form of e as evaluated at CFG node `node` (state on entry to the node; side effects
+        inside e itself are applied by the normaliser)."""
+        return PtrNorm(self.keys, self._env(self.at.get(node.id, {}))).norm(e)
+
+    def norm_at_ast(self, e):
+        ns = self.cfg.nodes_for(e)
+        if not ns:
+            return None
+        rs = [self.norm_at(n, e) for n in ns]
+        return rs[0] if all(r == rs[0] for r in rs) else None
